@@ -939,3 +939,7 @@ func init() {
 	mutant("reset-with-flow-control-code-ends-the-connection", "client-block-state", "conn.go", "	stop = stop || (fr.Type() != FrameResetStream && errors.Is(err, FlowControlError))", "	stop = stop || errors.Is(err, FlowControlError)")
 	mutant("retry-appends-to-the-first-attempts-response", "client-pool-shape", "client.go", "		res.Reset()\n", "")
 }
+
+func init() {
+	mutant("body-run-as-long-as-the-window", "cli-chunk-bound", "conn.go", "		if n > sendRun {\n			n = sendRun\n		}\n\n", "")
+}
